@@ -7,6 +7,7 @@ import (
 	"encoding/hex"
 	"encoding/json"
 	"fmt"
+	"go/build"
 	"go/parser"
 	"go/token"
 	"io"
@@ -125,7 +126,10 @@ func sumBytes(b []byte) string {
 
 // snap hashes every regular file and symlink below root (directories themselves are not
 // part of a snapshot: git does not track them either).
-func snap(root string) (snapshot, error) {
+func snap(root string) (snapshot, error) { return snapOpt(root, false) }
+
+// snapOpt: skipGit leaves out the top-level .git entry (as copyTree does).
+func snapOpt(root string, skipGit bool) (snapshot, error) {
 	s := snapshot{}
 	err := filepath.WalkDir(root, func(p string, d fs.DirEntry, err error) error {
 		if err != nil {
@@ -134,11 +138,17 @@ func snap(root string) (snapshot, error) {
 			}
 			return err
 		}
+		rel, _ := filepath.Rel(root, p)
+		rel = filepath.ToSlash(rel)
+		if skipGit && rel == ".git" {
+			if d.IsDir() {
+				return filepath.SkipDir
+			}
+			return nil
+		}
 		if d.IsDir() {
 			return nil
 		}
-		rel, _ := filepath.Rel(root, p)
-		rel = filepath.ToSlash(rel)
 		if d.Type()&fs.ModeSymlink != 0 {
 			t, _ := os.Readlink(p)
 			s[rel] = fstate{Sum: "link:" + t, Size: int64(len(t)), Link: true}
@@ -356,6 +366,11 @@ func parseDirectives(root string) (ds, skipped []Directive, err error) {
 				continue
 			}
 			gen, args := classify(words, module)
+			if ok, merr := build.Default.MatchFile(filepath.Dir(p), name); merr == nil && !ok {
+				// `go generate ./...` does not look into files excluded by build constraints
+				all = append(all, Directive{Dir: rel, File: name, Line: i + 1, Package: pkg, Cmd: cmd + "   [file excluded by build constraints]"})
+				continue
+			}
 			all = append(all, Directive{Dir: rel, File: name, Line: i + 1, Package: pkg, Cmd: cmd, Generator: gen, Args: args})
 		}
 		return nil
@@ -397,8 +412,27 @@ func setup(repo, tmp string, start time.Time) error {
 	base := filepath.Join(tmp, "base")
 	build := filepath.Join(tmp, "build")
 	bin := filepath.Join(tmp, "bin")
-	if err := copyTree(repo, base); err != nil {
-		return fmt.Errorf("snapshot of %s: %v", repo, err)
+	// the working tree may be edited while it is copied (other checks run mutants, the
+	// maintainer commits): accept the copy only if it equals the tree hashed right after it
+	consistent := false
+	for try := 0; try < 6 && !consistent; try++ {
+		os.RemoveAll(base)
+		if err := copyTree(repo, base); err != nil {
+			if try < 5 {
+				time.Sleep(300 * time.Millisecond)
+				continue
+			}
+			return fmt.Errorf("snapshot of %s: %v", repo, err)
+		}
+		a, err1 := snapOpt(repo, true)
+		b, err2 := snap(base)
+		consistent = err1 == nil && err2 == nil && len(diffSnap(a, b)) == 0
+		if !consistent {
+			time.Sleep(500 * time.Millisecond)
+		}
+	}
+	if !consistent {
+		return fmt.Errorf("snapshot of %s: the working tree kept changing while it was copied", repo)
 	}
 	// the generators are built from a second copy so that the pristine snapshot is never
 	// touched by the go tool
@@ -425,6 +459,14 @@ func setup(repo, tmp string, start time.Time) error {
 			return fmt.Errorf("generator binary %s was not produced", name)
 		}
 	}
+	// warm the build cache once: go/packages makes `go list -export` compile the dependencies of
+	// every package a generator loads; with -trimpath those compilations do not depend on the
+	// scratch path, so doing it here keeps 16 workers from compiling the same packages at once.
+	// Failures are not fatal here (a package that does not compile is the business of the run).
+	warm := exec.Command("go", "build", "./...")
+	warm.Dir = build
+	warm.Env = goEnv("PWD=" + build)
+	warm.Run()
 	os.RemoveAll(build)
 	ds, skipped, err := parseDirectives(base)
 	if err != nil {
